@@ -2,7 +2,7 @@
    Only statements here; proofs are in Proofs/Cumops.v. *)
 From Coq Require Import List Arith ZArith.
 Import ListNotations.
-From PV Require Import Model.Cumops Proofs.Cumops.
+From PV Require Import Model.Cumops Proofs.Cumops Proofs.Cumops2.
 
 (* cumops: every length L >= 1, every associative op: position i holds x_0 o ... o x_i *)
 Theorem C12_cumops_is_fold :
@@ -31,6 +31,17 @@ Theorem C12_cumprod_right :
 Proof. exact cumprod_right_correct. Qed.
 Print Assumptions C12_cumprod_right.
 
+(* every dimension: a tensor scanned along [dim] is a list of L slices of equal width w (w = product of the other
+   extents), the operation acts on whole slices item by item (zipop op); the result holds in every fibre j
+   (= every multi-index of the other dimensions) the sequential fold of that fibre, for every L >= 1 and every w *)
+Theorem C12_cumops_along_any_dim :
+  forall (A : Type) (op : A -> A -> A), (forall a b c, op (op a b) c = op a (op b c)) ->
+  forall (d : A) (w : nat) (x : list (list A)), 1 <= length x -> Forall (fun s => length s = w) x ->
+  exists r, cumops_model (zipop op) x = Some r /\ length r = length x /\
+            forall i j, i < length x -> j < w ->
+              length (nth i r []) = w /\ nth j (nth i r []) d = prefix A op d (fibre A d x j) i.
+Proof. exact cumops_along_dim. Qed.
+
 (* out-of-place variants leave the input untouched; in-place ones overwrite it with the result *)
 Theorem C12_pure_keeps_input :
   forall A op (v r a : list A), cumops_pure op v = Some (r, a) -> a = v /\ cumops_model op v = Some r.
@@ -47,3 +58,4 @@ Theorem C12_old_schedule_refuted :
   exists L, scan seg_op (strides_old L) (seg_input 0%Z L) = None.
 Proof. exact cumops_old_refuted. Qed.
 Print Assumptions C12_old_schedule_refuted.
+Print Assumptions C12_cumops_along_any_dim.
